@@ -111,6 +111,35 @@ def cases(tier, seed):
             out.append({'k': 'bench', 'text': t, 'K': 1, 'tag': 'bench:%s/%d' % (gate, ar)})
     t = 'INPUT(a)\nINPUT(b)\nOUTPUT(q)\nOUTPUT(o)\nq = DFF(n)\nn = XOR(a, q)\no = NAND(q, b)\n'
     out.append({'k': 'bench', 'text': t, 'K': 4, 'tag': 'bench:DFF'})
+    out += repo_texts()
+    return out
+
+
+def repo_texts():
+    """the BLIF / .bench texts embedded in the repository's own tests (Yosys-generated netlists): real-world inputs for both the
+    importer and the independent reader. .bench texts containing a gate with more than two inputs are left out (they hit the
+    open known finding on gate arity at a site that would name the whole file)."""
+    import ast
+    import os
+    from ..core import REPO
+    path = os.path.join(REPO, 'tests', 'test_importexport.py')
+    out = []
+    try:
+        tree = ast.parse(open(path).read())
+    except Exception:
+        return out
+    for node in tree.body:
+        if not (isinstance(node, ast.Assign) and len(node.targets) == 1 and isinstance(node.targets[0], ast.Name)
+                and isinstance(node.value, ast.Constant) and isinstance(node.value.value, str)):
+            continue
+        name, text = node.targets[0].id, node.value.value
+        if name.endswith('_blif'):
+            for merge in (True, False):
+                out.append({'k': 'blif', 'text': text, 'K': 3, 'merge': merge, 'tag': 'repo:%s' % name})
+        elif '_bench' in name:
+            ar = max([len(m.group(1).split(',')) for m in re.finditer(r'=\s*\w+\(([^)]*)\)', text)] or [0])
+            if ar <= 2:
+                out.append({'k': 'bench', 'text': text, 'K': 3, 'tag': 'repo:%s' % name})
     return out
 
 
@@ -157,6 +186,17 @@ def run_case(case, ob, tier):
         return
     K = case['K']
     v = Vars()
+    if case['k'] == 'blif' and case['tag'].startswith('repo:'):
+        # a text whose signals are not all driven (flops commented out) defines no function: nothing to compare
+        models_, top_ = bliftrans.parse_blif(case['text'])
+        flat_ = bliftrans.Flat(models_, top_)
+        try:
+            flat_.eval_cycle({n: False for n in flat_.inputs}, {q: False for q, _k, _d in flat_.state})
+        except KeyError as e:
+            if 'undriven' in str(e):
+                ob.notes.append('repository text %s leaves signals undriven: skipped' % case['tag'])
+                return
+            raise
     regs = sorted(block.wirevector_subset(pyrtl.Register), key=lambda r: r.name)
     unspecified = {r.name: SymInt.mk(v.reg(r.name, 1), False) for r in regs if r.reset_value is None}
     with sym_env([block]):
